@@ -202,6 +202,22 @@ class C07(ScanCheck):
             s_ = sc.mk_scenario(rng, v, s, outs, version=2, rct_type=rng.choice([4, 5, 6]), in_kind="key", nadd=len(outs), r=r)
             scen.append((s_, [((0, 2, 0, 3), None)], {"tag-coincidence", "own-add", "tag-y"}))
         scen += self.boundary_scenarios(rng, 8 if q else 40)
+        # degenerate sender secrets: r = 0 publishes the neutral element as transaction key (and r_i = 0 as additional key); the
+        # shared secret is then the neutral element too, the one-time key is Hs(O || i) G + S - a genuinely addressed output
+        for g in range(6 if q else 30):
+            v, s = sc.rscalar(rng), sc.rscalar(rng)
+            n = rng.choice([1, 2, 3])
+            outs = []
+            for i in range(n):
+                idx = rng.choice([(0, 0), (0, 1), (1, 2)])
+                usemain = idx == (0, 0) and g % 2 == 0
+                o = sc.mk_out_wallet(rng, v, s, idx[0], idx[1], usemain, rng.choice(["n", "y"]), clear=rng.choice([0, 9]))
+                if not usemain and rng.random() < 0.7:
+                    o["ri"] = 0
+                outs.append(o)
+            s_ = sc.mk_scenario(rng, v, s, outs, version=2, rct_type=rng.choice([0, 1, 5, 6]), in_kind="key", nadd=n,
+                                r=0 if g % 2 == 0 else None)
+            scen.append((s_, [((0, 2, 0, 3), None)], {"degenerate-tx-key"}))
         # repeated one-time keys: the key of an owned output also sits, byte for byte, on other outputs of the transaction (before
         # it, after it, twice).  At the other positions it matches nothing; at its own position it is still the wallet's
         for g in range(8 if q else 40):
